@@ -7,7 +7,7 @@ heap-of-iterators model and through the Lean immutable-list specification and re
 observation lists.  Comparison is step by step and stops at the first difference (after
 an exception the states may legitimately differ).
 """
-import itertools, signal, sys, warnings
+import gc, itertools, signal, sys, warnings
 import common
 from common import err_kind
 
@@ -128,9 +128,9 @@ def impl(case):
     # a request that does not terminate (e.g. filter rejecting every item of an endless stream)
     # is cut by a CPU-time alarm; a first alarm is confirmed by a second run with a longer
     # budget, so that a stalled machine can never turn into a reported "hang"
-    steps, timed_out = _run_history(case, 2.0)
+    steps, timed_out = _run_history(case, 3.0)
     if timed_out:
-        steps, timed_out = _run_history(case, 10.0)
+        steps, timed_out = _run_history(case, 15.0)
     return {"steps": steps}
 
 
@@ -140,6 +140,8 @@ def _run_history(case, budget):
     pool, steps, timed_out = [], [], False
     old = signal.signal(signal.SIGVTALRM, _alarm)
     hook, sys.unraisablehook = sys.unraisablehook, lambda *_a: None   # StreamTeeHub.__del__ after a failed __init__
+    gc_was = gc.isenabled()
+    gc.disable()                      # a full collection inside the timed region could look like a hang
     signal.setitimer(signal.ITIMER_VIRTUAL, budget)
     try:
         with warnings.catch_warnings():
@@ -158,10 +160,15 @@ def _run_history(case, budget):
             for o in pool:                      # no MemoryLeakWarning noise from __del__
                 if isinstance(o, StreamTeeHub) and isinstance(getattr(o, "_iters", None), list):
                     o._iters[:] = []
+    except _Timeout:                  # alarm between two steps: let the confirmation run decide
+        timed_out = True
+        steps.append({"hang": True})
     finally:
         signal.setitimer(signal.ITIMER_VIRTUAL, 0)
         signal.signal(signal.SIGVTALRM, old)
         sys.unraisablehook = hook
+        if gc_was:
+            gc.enable()
     return steps, timed_out
 
 
